@@ -22,10 +22,10 @@ RULE = ("scenarios of 5-9 result-storing jobs (return values: JSON, None, large,
 ASSUMPTIONS = ["in-memory message broker; result bucket broker in-memory or the real RedisBucketBroker over the fake Redis", "virtual time",
                "a store fault is a ConnectionError raised by the bucket broker's store_bucket"]
 EVAL_COUNTER = "buckets_or_faults_judged"
-REQUIRED = ["buckets_or_faults_judged", "buckets_judged", "fault_runs", "chains_overwritten", "eager_buckets", "disabled_checked", "unencodable_return_buckets", "undescribable_failures"]
+REQUIRED = ["buckets_or_faults_judged", "buckets_judged", "fault_runs", "chains_overwritten", "eager_buckets", "disabled_checked", "unencodable_return_buckets", "undescribable_failures", "late_read_polls"]
 CASE_TIMEOUT = 150
 
-KINDS = ["value", "none", "large", "exc", "timeout", "chain2", "chain3_fail", "recurring", "eager_ack_res", "eager_nack_exc", "eager_retry_res", "eager_ack_two_sets", "eager_exc_then_res", "eager_res_exc_res", "disabled", "disabled_eager", "badret", "badret_chain", "exc_unprintable"]
+KINDS = ["value", "none", "large", "exc", "timeout", "chain2", "chain3_fail", "recurring", "eager_ack_res", "eager_nack_exc", "eager_retry_res", "eager_ack_two_sets", "eager_exc_then_res", "eager_res_exc_res", "disabled", "disabled_eager", "badret", "badret_chain", "exc_unprintable", "chain_ttl"]
 
 
 def gen_cases(tier, seed):
@@ -74,6 +74,12 @@ def plan_job(kind, i, rnd):
     if kind == "badret_chain":
         kw["retries"] = 1
         return {"by_attempt": [{"do": "badret", "what": "set"}, {"do": "ok", "ret": val}]}, kw, {"success": True, "data": enc(val), "exception": None}, 2
+    if kind == "chain_ttl":
+        # two attempts 0.3 s apart, results kept for 3 s: between the first attempt's expiry and the second's, the second
+        # attempt's outcome is what a reader gets
+        kw["retries"] = 1
+        kw["result_ttl"] = timedelta(seconds=3)
+        return {"by_attempt": [{"do": "raise", "exc": "ValueError", "msg": "first"}, {"do": "ok", "ret": val}]}, kw, "late-read", 2
     if kind == "exc_unprintable":
         # the failure cannot even be described: whatever becomes of the bucket, the message is dead-lettered like any failed one
         return {"do": "raise", "exc": "Unprintable", "msg": "x"}, kw, "any", 1
@@ -149,14 +155,17 @@ async def scenario(loop, case, fault_at, info):
                 jobs[id_] = job
             worker = w.worker([r], tasks_limit=case["tl"], graceful_shutdown_time=6.0, handle_signals=[__import__("signal").SIGUSR1])
             polled = {"n": 0}
+            timeline = {}
 
             async def poll_results():
                 # a producer that keeps asking the SAME Job objects for their result while the chain is still going on
                 while True:
-                    for j in jobs.values():
+                    for jid, j in jobs.items():
                         try:
-                            if await j.result is not None:
+                            rb_ = await j.result
+                            if rb_ is not None:
                                 polled["n"] += 1
+                            timeline.setdefault(jid, []).append((loop.time(), None if rb_ is None else bool(rb_.success)))
                         except Exception:  # noqa: BLE001
                             pass
                     await asyncio.sleep(0.2)
@@ -170,6 +179,8 @@ async def scenario(loop, case, fault_at, info):
             except BaseException:  # noqa: BLE001
                 pass
             info["polled_results"] = polled["n"]
+            info["timeline"] = timeline
+            info["store_times"] = [(e["id"], e["t"]) for e in w.log.events if e.get("k") == "ret" and e.get("op") == "store_bucket" and str(e.get("who", "")).endswith("/rb")]
             info["worker"] = res
             info["plans"] = plans
             info["dispositions"] = {id_: [(e["op"], (e.get("params") or {}).get("tried")) for e in w.dispositions(id_)] for id_ in plans}
@@ -206,6 +217,19 @@ def judge_baseline(case, info, out, stats, fps):
             d = [op for op, _pl in info["dispositions"].get(id_, [])]
             if d != ["nack"] or info["places"].get(id_) != ["dead"] or info["starts"].get(id_) != 1:
                 out.append(V("disposition_changed_by_store_fault", "unprintable-exception/own-message", f"{id_}: an actor failure whose text cannot be produced: dispositions {d}, final place {info['places'].get(id_)}, executions {info['starts'].get(id_)} (expected one nack, dead-lettered, one execution)", bk))
+            continue
+        if exp == "late-read":
+            ts_ = [t for rid, t in info["store_times"] if rid == p["rid"]]
+            stats["late_reads_judged"] += 1
+            if len(ts_) != 2:
+                out.append(V("stale_bucket", "chain_ttl/store-count", f"{id_}: {len(ts_)} stores for 2 executions", bk))
+                continue
+            window = [(t, ok) for t, ok in info["timeline"].get(id_, []) if ts_[1] + 0.01 <= t <= ts_[1] + 3.0 - 0.05]
+            late = [(t, ok) for t, ok in window if t > ts_[0] + 3.0]
+            stats["late_read_polls"] += len(late)
+            bad = [(round(t, 3), ok) for t, ok in window if ok is not True]
+            if bad:
+                out.append(V("stale_bucket", "chain_ttl/read-after-first-expiry", f"{id_}: attempts stored at +{ts_[0]:.3f} (failure) and +{ts_[1]:.3f} (success), results kept 3 s: a reader got {bad[:3]} (None = nothing) while the second outcome was still alive", bk))
             continue
         if exp == "absent":
             stats["disabled_checked"] += 1
